@@ -62,6 +62,25 @@ fn run_one(cfg: &WorldCfg, ops: &[Op], plan: FaultPlan, tail: u64) -> FaultRun {
             if let Err(p) = catch_unwind(AssertUnwindSafe(f)) {
                 bad = Some(("panic-on-io-error", format!("{name} on B{} panicked: {}", b.m.id, crate::world::panic_message(&p)), name.to_string()));
             }
+            // the bar now belongs to its new owner, whatever the old terminal said while it was erased there:
+            // the owner can position other bars relative to it and remove it
+            if bad.is_none() && tail >= 2 {
+                let owner = if tail == 2 { Some(&mp2) } else { mp.as_ref() };
+                if let Some(owner) = owner {
+                    let fresh = || indicatif::ProgressBar::with_draw_target(Some(1), indicatif::ProgressDrawTarget::hidden());
+                    let probes: Vec<(&str, Box<dyn Fn()>)> = vec![
+                        ("insert_after(moved bar)", Box::new(|| drop(owner.insert_after(h, fresh())))),
+                        ("insert_before(moved bar)", Box::new(|| drop(owner.insert_before(h, fresh())))),
+                        ("remove(moved bar)", Box::new(|| owner.remove(h))),
+                    ];
+                    for (pname, pf) in probes {
+                        if let Err(p) = catch_unwind(AssertUnwindSafe(pf)) {
+                            bad = Some(("later-call-panics", format!("after {name} on B{} (during which a terminal call may have failed), {pname} on the new owner panicked: {}", b.m.id, crate::world::panic_message(&p)), pname.to_string()));
+                            break;
+                        }
+                    }
+                }
+            }
             break; // one bar changes its terminal
         }
     }
